@@ -61,6 +61,7 @@ type oracles struct {
 	importWasInFlight, cleanRestartImportInFlight bool
 	preRestart                                    *modelAt
 	completeOff                                   bool
+	durabilityUnknown                             bool // a call returned an error while the disk was full: memory may be ahead of the disk
 	inRestart                                     bool
 	firstSeen                                     map[string]string
 	cacheEvents                                   []cacheEvent     // API steps that changed converter caches
